@@ -27,7 +27,7 @@ pub fn cfg(include_mut_unmock: bool) -> Cfg {
     cfg.p_unordered = 95;
     cfg.p_ordered = 45;
     cfg.resps = vec![Resp::Answers, Resp::AnswersArc, Resp::Returns, Resp::ReturnsDefault];
-    cfg.matchers = vec![MatcherKind::FuncDebug, MatcherKind::FuncDebug, MatcherKind::Func];
+    cfg.matchers = vec![MatcherKind::FuncDebug, MatcherKind::FuncDebug, MatcherKind::Func, MatcherKind::Macro(0)];
     cfg.max_clauses = 5;
     cfg.max_stub_pats = 3;
     cfg.max_chain = 3;
@@ -205,7 +205,7 @@ pub const RULE: &str = "table = exhaustive enumeration of {strict, partial} x me
 pub fn run(ctx: &Ctx) -> Verdict {
     let mut v = Verdict::new("exploration", RULE);
     v.explanation = "Model = documented resolution order (default body > real function in partial mocks > panic; strict unmatched panics, partial unmatched goes to the real function). The side-effect log shows that the real function / default body ran exactly once; returned tags and the verification message show that no pattern count changed.".into();
-    v.assumptions = vec!["DynClause hook assembles the clause list".into()];
+    v.assumptions = vec!["each clause is wrapped in the DynClause hook (its builder type is only known at run time); the clause list itself is a production tuple of that arity".into()];
 
     // known finding: `unmock_with` ignored for `&mut self` methods
     let probe = Cell { partial: true, method: 12, situation: "unmentioned", ordered: false, arg: 3, position: 1 };
